@@ -62,8 +62,8 @@ CASES = [
          edits=[("""  try:
     yield temporary_provider
   finally:
-    _location_provider = original_location_provider""", """  yield temporary_provider
-  _location_provider = original_location_provider""")]),
+    _tracking_state.location_provider = original_location_provider""", """  yield temporary_provider
+  _tracking_state.location_provider = original_location_provider""")]),
     dict(id='c16-exclude-list-shrunk', prop='C16', file=H, expect='violation',
          names='materialize.py',
          edits=[('            "fiddle/_src/materialize.py",\n', '')]),
